@@ -567,7 +567,10 @@ def run_tnet_from(wire, chunks, frames, case, stats, clause):
     cpppo, tnet, _ = _impl()
     source = cpppo.chainable()
     conn = FakeConn(chunks)
-    gen = tnet.tnet_from(conn, ('c20', 0), source=source)
+    # `ignore` (symbols skipped between messages, as tnet.main configures b'\n'): the streams here carry no separators, so it must
+    # change nothing -- in particular not inside a payload that contains such a symbol
+    ign = b'\n' if zlib.crc32(wire) % 2 else None
+    gen = tnet.tnet_from(conn, ('c20', 0), source=source, ignore=ign)
 
     def fail(sig, observed, expected):
         stats.fail(clause, '%s:%s' % (clause, sig), case, observed=observed, expected=expected)
